@@ -292,10 +292,15 @@ def r_getters(ctx: Ctx, model):
                                    nontrivial_key=("getter", g, case),
                                    sample={"rule": "G-getter", "getter": g, "case": case, "derived": got} if n % 9 == 0 else None)
     ctx.floor("getter cases interpreted", n, 100)
+    r_getter_history(ctx, model)
+
+
+def r_getter_history(ctx: Ctx, model, prop="C20", rule="G-getter"):
     # history: the backend state is shared between getters; after any other read (another temperature, the other phase, a
     # pressure-based flash) a getter must still answer for the temperature it was asked about
-    ctx.rule("G-getter (history): after enthalpy_vaporisation(press=...), or another getter at another temperature, every "
+    ctx.rule(f"{rule} (history): after enthalpy_vaporisation(press=...), or another getter at another temperature, every "
              "temperature getter still reads the backend at (its own quality, the requested temperature)")
+    ci = model.cls("pygaps.core.adsorbate.Adsorbate")
     I = make_interp(model, backend_ok=True)
     nh = 0
     for g in GETTERS:
@@ -322,7 +327,7 @@ def r_getters(ctx: Ctx, model):
                 want = expected_backend(g, "300")
                 ok = oc.kind == "ok" and oc.value in want
                 got = I.describe(oc.value) if oc.kind == "ok" else f"raises {oc.exc.name}"
-                ctx.ob(ok, Finding("C20.G-getter", ci.find_method(g).where, f"Adsorbate.{g}|after:{prefix}",
+                ctx.ob(ok, Finding(f"{prop}.{rule}", ci.find_method(g).where, f"Adsorbate.{g}|after:{prefix}",
                                    f"Adsorbate.{g}(T) called after {prefix}: {got}; required {' or '.join(sorted(x.canon() for x in want))} - the "
                                    "answer depends on what was asked before"),
                        nontrivial_key=("getter-history", g, prefix))
